@@ -1117,6 +1117,9 @@ class Interp:
                 if n > 4 * self.MAX_LOOP:
                     raise Imprecise(f"generator {it.qual} yields more than {4 * self.MAX_LOOP} items at {where_}")
                 yield v
+        elif isinstance(it, _OneShot):
+            while it:
+                yield it.pop(0)          # handed out one at a time: a `break` leaves the rest for the next loop over it
         elif isinstance(it, range) and len(it) > 2000 and getattr(self, "_search_depth", 0) > 0:
             # a search (`next(x for x in range(big) if …)`) over a long range: the first two candidates concretely, then one
             # symbolic candidate standing for any later one; if that is refused too, the search found nothing
@@ -2124,7 +2127,7 @@ class Interp:
         if name == "iter" and len(args) == 1:
             if isinstance(args[0], (_Iter, _LazyGen)):
                 return args[0]
-            return _Iter(list(self.iterate(args[0])))
+            return _OneShot(list(self.iterate(args[0])))       # an iterator: what a loop has walked (before a break) is gone
         if name == "next" and args:
             src_ = args[0]
             if isinstance(src_, _LazyGen):
